@@ -17,13 +17,33 @@ type wrappedCodecRegistry struct {
 	typ   reflect.Type
 	tag   string
 	codec Codec
+	// pending holds the codecs built while the codec for typ is under
+	// construction. They may refer to that unfinished codec, so they are only
+	// handed to the underlying registry once it is complete.
+	pending *[]pendingCodec
+}
+
+type pendingCodec struct {
+	typ   reflect.Type
+	tag   string
+	codec Codec
 }
 
 func (w wrappedCodecRegistry) Load(typ reflect.Type, tag string) Codec {
 	if typ == w.typ && tag == w.tag {
 		return w.codec
 	}
+	for _, p := range *w.pending {
+		if p.typ == typ && p.tag == tag {
+			return p.codec
+		}
+	}
 	return w.CodecRegistry.Load(typ, tag)
+}
+
+func (w wrappedCodecRegistry) StoreOrSwap(typ reflect.Type, tag string, c Codec) Codec {
+	*w.pending = append(*w.pending, pendingCodec{typ: typ, tag: tag, codec: c})
+	return c
 }
 
 func BuildStructCodec(p CodecBuilder, registry CodecRegistry, typ reflect.Type, tag string) (Codec, error) {
@@ -36,7 +56,9 @@ func BuildStructCodec(p CodecBuilder, registry CodecRegistry, typ reflect.Type, 
 		fields: make([]description, typ.NumField()),
 	}
 
-	registry = wrappedCodecRegistry{CodecRegistry: registry, typ: typ, tag: tag, codec: &c}
+	var pending []pendingCodec
+	outer := registry
+	registry = wrappedCodecRegistry{CodecRegistry: outer, typ: typ, tag: tag, codec: &c, pending: &pending}
 
 	var maxIndex int
 	var count int
@@ -118,6 +140,11 @@ func BuildStructCodec(p CodecBuilder, registry CodecRegistry, typ reflect.Type, 
 			codec:  f.codec,
 			offset: f.offset,
 		}
+	}
+
+	// The codec is complete: publish the codecs built along the way
+	for _, p := range pending {
+		outer.StoreOrSwap(p.typ, p.tag, p.codec)
 	}
 
 	return &c, nil
